@@ -376,3 +376,32 @@ def lattice_c05(ctx):
                 if why:
                     return why, nsolves
     return None, nsolves
+
+
+def scripted_no_certificate(builders, rng):
+    """what a relaxation reports when the solver says its conic program is (likely) infeasible or (likely) unbounded, for the outcomes that are
+    consistent with a feasible problem: the primal form (a maximisation) found infeasible and the dual form (a minimisation) found unbounded both
+    mean 'no certificate', so the reported bound is -inf, never +inf, whether the solver is sure (ECOS exit flags 1, 2) or not (11, 12).  The real
+    ECOS.apply / parse_result and Problem.solve run; only the numerical solve is scripted.  builders: [(description, form, zero-argument builder)]"""
+    from sageopt.coniclifts.problems.problem import Problem
+    from harness.props.c09 import Stub
+    saved = Problem._SOLVERS_['ECOS']
+    n = 0
+    try:
+        with warnings.catch_warnings():
+            warnings.simplefilter('ignore')
+            for desc, form, build in builders:
+                prob = build()
+                ncol = prob.A.shape[1]
+                for flag in ((1, 11) if form == 'primal' else (2, 12)):
+                    Problem._SOLVERS_['ECOS'] = Stub
+                    Stub.answer = (flag, [0.0] * ncol, float(rng.choice([0.0, 1.5, -2.0])))
+                    st, val = prob.solve(solver='ECOS', verbose=False)
+                    Problem._SOLVERS_['ECOS'] = saved
+                    n += 1
+                    if not (val == -math.inf):
+                        return ('the %s form of %s, whose conic program the solver reports as %s (ECOS exit flag %d), reports (%s, %r); without a '
+                                'certificate the bound is -inf' % (form, desc, 'infeasible' if form == 'primal' else 'unbounded', flag, st, val)), n
+    finally:
+        Problem._SOLVERS_['ECOS'] = saved
+    return None, n
